@@ -193,3 +193,9 @@ def check_C10(tier):
     from drivers import syntax
 
     return syntax.run(Check("C10", tier), tier)
+
+
+def check_C15(tier):
+    from drivers import cnf
+
+    return cnf.run(Check("C15", tier), tier)
